@@ -220,6 +220,31 @@ pub fn introspection_variant(proj: &Project, rng: &mut Rng) -> Project {
     Project { files, root: proj.root.clone(), schema_paths: vec![sp], op_paths: proj.op_paths.clone(), config: proj.config.clone(), schema_model: proj.schema_model.clone(), op_models: proj.op_models.clone(), schema_is_json: true, doc_globs: proj.doc_globs.clone() }
 }
 
+/// the same project with `plugins` configured (text-level edit of its configuration file, YAML or JSON). Both built-in
+/// plugins leave a valid SDL project valid: the model plugin adds `directive @model` as a virtual schema source, the
+/// graphql-scalars plugin only reads extensions of schemas loaded from JavaScript.
+pub fn add_plugins(files: &mut [(String, String)], plugins: &[&str]) -> bool {
+    let Some((_, text)) = files.iter_mut().find(|(p, _)| p.contains("graphql.config")) else { return false };
+    if let Ok(mut v) = serde_json::from_str::<serde_json::Value>(text) {
+        if let Some(n) = v.get_mut("extensions").and_then(|e| e.get_mut("nitrogql")).and_then(|n| n.as_object_mut()) {
+            n.insert("plugins".into(), serde_json::json!(plugins));
+            *text = serde_json::to_string_pretty(&v).unwrap_or_default();
+            return true;
+        }
+        return false;
+    }
+    let at = "  nitrogql:\n";
+    let Some(k) = text.find(at) else { return false };
+    let mut ins = String::from("    plugins:\n");
+    for p in plugins {
+        ins.push_str(&format!("      - {:?}\n", p));
+    }
+    text.insert_str(k + at.len(), &ins);
+    true
+}
+
+pub const PLUGIN_SETS: &[&[&str]] = &[&["nitrogql:model-plugin"], &["nitrogql:graphql-scalars-plugin"], &["nitrogql:model-plugin", "nitrogql:graphql-scalars-plugin"], &["nitrogql:graphql-scalars-plugin", "nitrogql:model-plugin"]];
+
 pub struct ProjOpts {
     pub hostile_trivia: bool,
     pub extension_split: bool,
